@@ -85,6 +85,12 @@ def _cls(name):
         # an error class of some other top-level module next to this one (built.py, main.py)
         import importlib
         return getattr(importlib.import_module(mod), cls)
+    if not hasattr(builtins, name):
+        # a class of module `__main__` / `builtins` declared inside a class or a function (probe/main.py)
+        import importlib
+        bare = importlib.import_module('main').BARE
+        if name in bare:
+            return bare[name]
     return getattr(builtins, name)
 
 
